@@ -221,6 +221,8 @@ def run_case(case, res):
             else:
                 Xn = mx + npr.uniform(0.05, 1.0, size=(m, d)) * (mx - mn)
             yn = npr.randint(0, k, size=m).astype(np.int64)
+            if region in ("inside", "partly") and rng.random() < 0.15:
+                Xn = np.round(Xn) + 0.0          # whole-number samples; handed over as an integer-typed array below
             if kind == "test" and rng.random() < 0.4:
                 yn[npr.rand(m) < 0.3] = -1
         S, keep, near = expected_for(Xn)
@@ -228,6 +230,9 @@ def run_case(case, res):
         # half of the time the data set is built directly on the caller's arrays (no defensive copy): they must come back untouched
         own = rng.random() < 0.5
         Xarg, yarg = (Xn.copy(), yn.copy()) if own else (Xn, yn)
+        if kind != "recall" and Xn.size and bool(np.all(Xn == np.round(Xn))) and rng.random() < 0.7:
+            Xarg, own = Xn.astype(np.int64), True
+            res.count("integer_typed_samples")
         Xkeep, ykeep = Xn.copy(), yn.copy()
         ds = DataSet((Xarg, yarg), name="new%d" % ci)
         if near.any():
